@@ -39,3 +39,16 @@ PROP['targets'] += [
          quick=dict(cases=0, secs=90, stride=1), thorough=dict(cases=0, secs=300, stride=1)),
 ]
 PROP['rule'] += ' || c08_short_records: index -> (version, suite, role, content type 20..24, body length 0..96) delivered to an established session; non-trivial = every evaluated index'
+
+
+# ---- DTLS handshake reassembly: generated fragment sets (offset/length pairs in and out of order, overlapping, duplicated, zero-length,
+# inconsistent total length / message_seq / type, nested handshake headers, synthetic HelloVerifyRequests) replace messages of the legit
+# peer's flights; a hang is a violation; heap blocks are pre-filled (ld --wrap=malloc, props/C08/c08_fill.c) and scenarios whose fragment
+# set leaves a hole are run under two fill bytes and must behave identically (use of uninitialised memory)
+PROP['targets'] += [
+    dict(name='c08_dtls_frags', src=['props/C08/dtls_frags.cc', 'props/C08/c08_fill.c', 'harness/wraps.c', 'harness/shim.c'], wraps=WRAPS + ['malloc'], env={'VERIF_DIR': '/verif'},
+         hang_is_violation=True, quick=dict(cases=4800, secs=25), thorough=dict(cases=400000, secs=300)),
+]
+PROP['rule'] += (' || c08_dtls_frags: input = (victim role, DTLS 1.0/1.2, suite, client-auth, PMTU, tickets, timer firings; up to two (message ordinal, base message, message_seq, declared length/tail, '
+                 '0-8 fragment tiling with coinciding cut points, 0-3 fragment edits, order, framing)); non-trivial = a generated fragment set was delivered; distinct by (role, version, client-auth, outcome, '
+                 'per mutation: message type, base, declared-length class, message_seq class, fragment count, zero-length/overlap/hole flags, edit count)')
